@@ -16,7 +16,7 @@ def reg(pid, technique, text, note, ref):
 reg("C18",
     "property-based testing: Hypothesis token streams + exhaustive insertion-order permutations vs. a sorted-permutation oracle and a permutation-invariance metamorphic relation",
     "Generated-input exploration: every Start/Empty tag's output attribute list must equal the input items sorted by (ns or '', local), "
-    "other tokens must be the same objects, and the result must not depend on the incoming order; all orders of 6-key colliding sets are enumerated. Serializer level: trees rendered by HTMLSerializer(alphabetical_attributes=True) together with the other filters and output encodings are read back by the reference lexer; every start tag's attribute names must be in order. "
+    "other tokens must be the same objects, and the result must not depend on the incoming order; all orders of 6-key colliding sets are enumerated. Serializer level: trees rendered by HTMLSerializer(alphabetical_attributes=True) together with the other filters and output encodings are read back by the reference lexer; every start tag's attribute names must be in order; streams of up to 5000 tokens. "
     "Held on everything explored; not a proof.",
     "Trusts CPython's sorted()/dict ordering for the oracle; domain = namespaces None or any str incl. '' with at most one attribute per sort key (ties would make order-independence undecidable).",
     "DESIGN.md §3 C18")
@@ -24,7 +24,7 @@ reg("C18",
 reg("C02",
     "differential testing vs. an independent reference WHATWG tokenizer: bounded-exhaustive enumeration over a 46-symbol class alphabet, state-reaching prefixes x all short suffixes, Hypothesis soup/random Unicode",
     "Exploration with exhaustive sub-domains: all strings of <=3 alphabet symbols in 12 (start state, last start tag, CDATA) configurations, all of length 4 in the data state "
-    "(thorough: <=4 everywhere, 5 in data), ~290 state-reaching prefixes x all suffixes of <=2 (3) symbols, plus generated soup. Token lists must be equal to the reference's. "
+    "(thorough: <=4 everywhere, 5 in data), ~290 state-reaching prefixes x all suffixes of <=2 (3) symbols, plus generated soup, references drawn from every name of the standard's table and every ';'-less stem that is not in it, a third of the generated cases delivered through a short-read text stream. Token lists must be equal to the reference's. "
     "Evidence reports reference (state, class) transition coverage. Held on everything explored.",
     "Trusted: vf/ref/tokenizer.py (own transcription of the June-2020 standard, html.entities.html5 as entity table). DOCTYPE name missing == '' (cannot be told apart).",
     "DESIGN.md §3 C02")
@@ -32,7 +32,7 @@ reg("C02",
 reg("C14",
     "exhaustive enumeration of the finite reference space against an independent oracle (html.entities.html5 + numeric rules from the standard) + encode/decode round trip over all code points",
     "Bounded-exhaustive: all 2231 names x 17 followers x 5 contexts through the tokenizer (and parseFragment), all special numeric values and overflow samples x 6 spellings x ';'/none x followers; "
-    "the plain numeric space 0..0x110000 (quick: seed-rotated 1/8 slice; thorough: all) batched ~400 per document; reverse direction: every non-surrogate code point entity-encoded under ascii (+ samples of 5 other codecs) and parsed back; every code point with a name in the table x 7 follower strings x text/attribute in every tier. "
+    "the plain numeric space 0..0x110000 (quick: seed-rotated 1/8 slice; thorough: all) batched ~400 per document; reverse direction: every non-surrogate code point entity-encoded under ascii (+ samples of 5 other codecs) and parsed back; every code point with a name in the table x 7 follower strings x text/attribute in every tier; every ';'-less stem that is not in the table (must stay literal); every entity name as a walker-format Entity token x resolve_entities x following text through the serializer. "
     "Thorough tier is exhaustive over the stated domain.",
     "Trusted: html.entities.html5 as the standard's table; numeric rules written from the standard. Known findings: C1 controls cannot be expressed by any reference; CR is written raw.",
     "DESIGN.md §3 C14")
@@ -40,20 +40,20 @@ reg("C14",
 reg("C20",
     "exhaustive enumeration of all BMP code points in first/later name position + Hypothesis names/comments/public ids x all 64 flag sets, judged by expat and round-trip/injectivity checks",
     "Exhaustive on the BMP sub-domain (65536 code points x 2 positions x element/attribute): expat must accept the coerced name and report it unchanged, legal colon-free names must be returned as they are; "
-    "generated names (astral, U+hex look-alikes, one filter object reused) add fromXmlName(toXmlName(n)) == n (decoded by the same and by a new filter object) and injectivity; comments/public ids over all flag sets. Held on everything explored.",
+    "generated names (astral, U+hex look-alikes, one filter object reused) add fromXmlName(toXmlName(n)) == n (decoded by the same and by a new filter object, and by treebuilders/etree.py's tostring() for every enumerated name) and injectivity; comments/public ids over all flag sets. Held on everything explored.",
     "Trusted: expat as the XML parser of reference (XML 1.0 4th-edition names). Known finding: astral name characters are passed through.",
     "DESIGN.md §3 C20")
 
 reg("C13",
     "property-based testing: Hypothesis + enumerated (previous, token, next) triples of walker tokens through the filter, judged by identity-subsequence check and an independent transcription of the standard's optional-tag rules; parse-equivalence round trip on generated conforming documents",
     "Exploration: every triple with an omittable-name tag in the middle over a 160-token alphabet is enumerated (both tiers), other triples at a seed-rotated stride, plus generated balanced/free streams; "
-    "each removed token must be an attribute-less start tag or end tag the standard allows to omit given its neighbours; survivors must be the same objects in order. Conforming documents: filtered and unfiltered serialisations must parse to the same tree. Serializer level: the same documents rendered with and without omit_optional_tags under sanitize / strip_whitespace / alphabetical options are read by the reference lexer; every tag missing from the omitted rendering must be omittable between its neighbours in the final markup.",
+    "each removed token must be an attribute-less start tag or end tag the standard allows to omit given its neighbours; survivors must be the same objects in order. Conforming documents: filtered and unfiltered serialisations must parse to the same tree. Serializer level: the same documents rendered with and without omit_optional_tags under sanitize / strip_whitespace / alphabetical options are read by the reference lexer; every tag missing from the omitted rendering must be omittable between its neighbours in the final markup. The conforming generator includes datalist, consecutive optgroups, tables with many distinct custom elements per cell, HTML integration points and text nodes over 1024 characters.",
     "Trusted: vf/ref/optionaltags.py (own transcription of the June-2020 rules); 'no more content in parent' == next token is an end tag or stream end. Two known findings are demanded by the repo's own test data.",
     "DESIGN.md §3 C13")
 
 reg("C03",
     "fuzzing-style property-based testing: Hypothesis bytes/Unicode/markup soup + parameterised pathological depth/length families through every builder/namespacing/document-or-fragment/container/scripting combination; crash oracle + document-skeleton validity predicate",
-    "Exploration: no exception of any type may escape parse()/parseFragment(); documents must have the skeleton doctype?/comments/html(head, body|frameset). ~70 nesting units x prefixes x closers at N up to 3500 (thorough 20000) reach depth-related failures; a watchdog (repeating timer) hands hangs to a dispatch-counting parse that proves tree-constructor livelocks deterministically (total count and 5000 dispatches without input consumption); other hangs are 'inconclusive'. Held on everything explored.",
+    "Exploration: no exception of any type may escape parse()/parseFragment(); documents must have the skeleton doctype?/comments/html(head, body|frameset). ~70 nesting units x prefixes x closers at N up to 3500 (thorough 20000) reach depth-related failures; lexical-length families (one reference / name / value / comment of up to 200000 characters) and many-distinct-names inputs reach limits of the host language and cache evictions; a watchdog (repeating timer) hands hangs to a dispatch-counting parse that proves tree-constructor livelocks deterministically (total count and 5000 dispatches without input consumption); other hangs are 'inconclusive'. Held on everything explored.",
     "Termination is decided for tree-constructor livelocks only. Known finding: the standard's own algorithm can put a reconstructed formatting element after frameset under html (classifier: the reference tree has the same anomaly).",
     "DESIGN.md §3 C03")
 
@@ -71,19 +71,19 @@ reg("C16",
 
 reg("C05",
     "metamorphic property-based testing: identical characters delivered through 6 source kinds x generated read-size schedules x internal chunk sizes x 15 encodings must reproduce the tree and (code, line, col) error list of the one-shot str parse",
-    "Exploration: generated CR/LF/surrogate/multibyte-rich markup under read schedules (file-like objects returning 1..9 characters or bytes per read), _defaultChunkSize 1..10240, and byte sources in 12 argument-declared encodings + 3 BOM kinds; evidence reports how many boundaries fell inside CRLF pairs, at surrogates, inside multi-byte sequences, tags and character references. Held on everything explored.",
+    "Exploration: generated CR/LF/surrogate/multibyte-rich markup under read schedules (file-like objects returning 1..9 characters or bytes per read), _defaultChunkSize 1..10240, and byte sources in 12 argument-declared encodings + 3 BOM kinds; sources also as genuine StringIO/BytesIO subclasses with short reads and as a StringIO whose prefix was consumed before; entry points HTMLParser.parse / html5lib.parse() / HTMLParser.parseFragment / html5lib.parseFragment(); evidence reports how many boundaries fell inside CRLF pairs, at surrogates, inside multi-byte sequences, tags and character references. Held on everything explored.",
     "Reference = parse of the same text as one str at the default chunk size. Known findings: chunk-dependent position/order of stream-level invalid-codepoint errors; BOM sniffing trusts read(4). Five input-stream defects found here were repaired in /repo.",
     "DESIGN.md §3 C05")
 
 reg("C11",
     "round-trip + differential property-based testing of the tree walkers: own stream validator, html5lib's Lint filter, own rebuild(stream) == direct traversal, etree-stream == dom-stream, over trees parsed from generated markup soup and several start nodes",
-    "Exploration: trees from soup (documents, fragments in 45 contexts, namespacing on/off) are walked by both walkers from the document, fragment, root element and an inner element; the stream must be well formed, accepted by Lint, rebuild to exactly the tree obtained by direct traversal, and be the same for both walkers after concatenating character tokens. Held on everything explored.",
+    "Exploration: trees from soup (documents, fragments in 45 contexts, namespacing on/off) are walked by both walkers from the document, fragment, root element and an inner element; the stream must be well formed, accepted by Lint, rebuild to exactly the tree obtained by direct traversal, and be the same for both walkers after concatenating character tokens; a walker object walked again after an abandoned walk must give the same stream; treewalkers.concatenateCharacterTokens must agree with plain concatenation; long documents included. Held on everything explored.",
     "Doctype name None == '' (cannot be told apart). Known finding: a void-listed element with children (event-source).",
     "DESIGN.md §3 C11")
 
 reg("C19",
     "round-trip property-based testing of to_sax: a recording handler validates the SAX event grammar and a tree rebuilt from the events (own builder; independently xml.dom.pulldom.SAX2DOM) must equal the directly traversed source tree minus comments/doctype",
-    "Exploration: trees parsed from generated soup (void, SVG/MathML, xlink:/xml:/xmlns attributes, namespacing on/off, documents and fragments) walked by both walkers; one startDocument/endDocument pair, balanced prefix mappings, properly nested element events, rebuilt tree == source tree (attributes as mappings). Held on everything explored.",
+    "Exploration: trees parsed from generated soup (void, SVG/MathML, xlink:/xml:/xmlns attributes, namespacing on/off, documents and fragments) walked by both walkers; one startDocument/endDocument pair, balanced prefix mappings, properly nested element events, rebuilt tree == source tree (attributes as mappings); the qualified name of every namespaced attribute resolves through the announced prefix mappings. Held on everything explored.",
     "SAX2DOM is compared on elements/namespaces/text only (it has attribute quirks of its own). Known finding: to_sax asserts on the walker's error token for a void-listed element with children.",
     "DESIGN.md §3 C19")
 
@@ -102,19 +102,19 @@ reg("C07",
 
 reg("C17",
     "property-based testing against an independent whitespace-collapse model + idempotence law, over etree and dom walker streams of whitespace-rich generated markup",
-    "Exploration: streams from trees with all five ASCII whitespace characters, non-ASCII spaces, character references to whitespace and nested preserve elements; text is compared group-wise (maximal runs of text tokens) with the model: collapsed outside pre/textarea/raw-text elements, identical inside, non-text tokens identical, F(F(x)) == F(x); the filter on the live walker must equal the filter on a copy of its tokens and leave a second walk unchanged. Held on everything explored.",
+    "Exploration: streams from trees with all five ASCII whitespace characters, non-ASCII spaces, character references to whitespace and nested preserve elements; text is compared group-wise (maximal runs of text tokens) with the model: collapsed outside pre/textarea/raw-text elements, identical inside, non-text tokens identical, F(F(x)) == F(x); the filter on the live walker must equal the filter on a copy of its tokens and leave a second walk unchanged; HTMLSerializer(strip_whitespace=True, other options) must write what it writes for the hand-filtered stream. Held on everything explored.",
     "Raw-text elements = constants.rcdataElements of the pinned tree (incl. noscript); text inside title/plaintext/listing and foreign namesakes is not judged. Known finding: per-token collapsing leaves one space per token when a run is split across tokens (modelled exactly).",
     "DESIGN.md §3 C17")
 
 reg("C06",
     "model-based + round-trip property-based testing: byte documents from a prescan-oriented grammar x all subsets/values of the five *_encoding arguments; documentEncoding vs. a reference precedence chain + reference WHATWG prescan + late-<meta> model; tree vs. parse(decode(bytes, reported))",
-    "Exploration: generated byte documents (BOMs, declarations in every spelling and context, declarations within +-40 bytes of offset 1024, non-ASCII bodies) x argument subsets over valid/invalid/UTF-16 labels x bytes/BytesIO/non-seekable streams. Three oracles: a certain source is never overridden; the tree equals the tree of the bytes decoded with the reported encoding; the reported encoding equals the reference prediction. Held on everything explored.",
+    "Exploration: generated byte documents (BOMs, declarations in every spelling and context, declarations within +-40 bytes of offset 1024, non-ASCII bodies) x argument subsets over valid/invalid/UTF-16 labels x bytes/BytesIO/non-seekable streams x {parse, parseFragment(div)}; declarations in the middle of table/select/formatting structure and CR-terminated chunks (state that must not survive the restart); padding targets 1024 and 10240. Three oracles: a certain source is never overridden; the tree equals the tree of the bytes decoded with the reported encoding; the reported encoding equals the reference prediction. Held on everything explored.",
     "Trusted: webencodings for labels; vf/ref/prescan.py (own transcription of the WHATWG prescan) and the reference tree constructor for the late-meta path. chardet absent. Known findings: html5lib's prescan variant (modelled separately), truncated multi-byte sequence at EOF. Three defects repaired.",
     "DESIGN.md §3 C06")
 
 reg("C09",
     "property-based testing with an independent allow-list predicate (URL-standard scheme parsing, data: MIME essence, CSS declaration split) over attack-vocabulary markup, default and randomly restricted allow-lists",
-    "Exploration: obfuscated URL schemes (case, embedded TAB/LF/CR, leading controls, character references, prefixes), data: URLs with MIME variants, style attributes (properties, shorthand keywords, url( spellings, escapes, comments), SVG/MathML, namespaced attributes, comments, unknown elements - through parse, walk and the sanitizer filter with the default lists or seed-derived subsets of all ten constructor arguments; every output token is judged by the predicate, plus non-invention/inert-text checks. Held on everything explored.",
+    "Exploration: obfuscated URL schemes (case, embedded TAB/LF/CR, leading controls, character references, prefixes), data: URLs with MIME variants, style attributes (properties, shorthand keywords, url( spellings, escapes, comments), SVG/MathML, namespaced attributes, comments, unknown elements - (tags with several URI attributes, values a URL parser rejects, long documents) through parse, walk and the sanitizer filter with the default lists or seed-derived subsets of all ten constructor arguments; every output token is judged by the predicate, plus non-invention/inert-text checks. Held on everything explored.",
     "Attribute values are judged as stored in the tree; numbers/units/colours in CSS values are not constrained. One defect (KeyError with restricted protocols) repaired.",
     "DESIGN.md §3 C09")
 
@@ -132,13 +132,13 @@ reg("C08",
 
 reg("C15",
     "model-based round-trip property-based testing: conforming documents with generated <meta> declarations serialized under 40 output labels; the bytes parsed with no hints must report the label's encoding and give the tree predicted by a tree-level model of the meta injection applied to the unencoded serialization's tree",
-    "Exploration: documents with 0..3 extra meta elements (charset / http-equiv in all spellings, in head and body), look-alike declarations inside script/style text, > 1024 bytes before head, non-ASCII and astral text/attribute values x every label in a 40-label list that codecs and webencodings both accept x omission on/off x walker. documentEncoding must be the label's canonical encoding, the tree must equal model(tree of the unencoded serialization), and a declaration must sit inside head. Held on everything explored.",
+    "Exploration: documents with 0..3 extra meta elements (charset / http-equiv in all spellings, in head and body), look-alike declarations inside script/style text, optionally more than 10240 bytes before the first declaration, > 1024 bytes before head, non-ASCII and astral text/attribute values x every label in a 40-label list that codecs and webencodings both accept x omission on/off x walker. the bytes are re-parsed as bytes, BytesIO or a read-only stream; documentEncoding must be the label's canonical encoding, the tree must equal model(tree of the unencoded serialization), and a declaration must sit inside head. Held on everything explored.",
     "Comments and script/style text are constructed inside the codec's repertoire (no character references there). UTF-16 output is a recorded finding; noscript raw text (C07) is excluded by construction and counted.",
     "DESIGN.md §3 C15")
 
 reg("C12",
     "model-based stateful testing (Hypothesis RuleBasedStateMachine) of object reuse: generated histories of parse / parseFragment / strict-mode aborts / faulting input sources / serialize on shared objects and read-level thread schedules of independent parsers, compared step by step with brand-new objects and, for a sample, with a fresh interpreter",
-    "Exploration: histories of <= 8 (thorough 12) steps over shared HTMLParser(etree), HTMLParser(etree root-element form), HTMLParser(dom), HTMLParser(strict) and four HTMLSerializer objects; documents include error-free ones over the stateful spots and such documents cut open plus one offending token, so strict aborts happen at varied error sites; aborts by ParseError at the first error and by IOError injected after k reads; 'threads' steps run 2-3 shared parsers concurrently with sources gated so that the harness releases one read at a time along a generated schedule. After every step the result must equal that of brand-new objects; a sample of calls is re-computed in one freshly forked interpreter state per call (process-wide caches) and a larger batch in one fresh interpreter. Held on everything explored.",
+    "Exploration: histories of <= 8 (thorough 12) steps over shared HTMLParser(etree), HTMLParser(etree root-element form), HTMLParser(dom), HTMLParser(strict) and four HTMLSerializer objects; documents include error-free ones over the stateful spots and such documents cut open plus one offending token, so strict aborts happen at varied error sites; aborts by ParseError at the first error and by IOError injected after k reads; 'threads' steps run 2-3 shared parsers - or 2-3 concurrent calls of the module-level html5lib.parse() with equal configurations - concurrently with sources gated so that the harness releases one read at a time along a generated schedule. After every step the result must equal that of brand-new objects; a sample of calls is re-computed in one freshly forked interpreter state per call (process-wide caches) and a larger batch in one fresh interpreter. Held on everything explored.",
     "Thread interleavings are owned at read() granularity only; preemptive races inside a token are out of reach. One defect (phase-object state leaking after an aborted parse) repaired.",
     "DESIGN.md §3 C12")
 
